@@ -124,10 +124,20 @@ def _canon_circ(ctx, qc):
     return dict(regs=regs, data=ctx.canon_circuit(qc))
 
 
-def _exec_call(spec, cache=None):
+def _arg_snapshot(qc):
+    """what a later call on the same circuit OBJECT would see: names + qubit indices + parameters of the instruction list"""
+    return [(inst.operation.name, tuple(qc.find_bit(q).index for q in inst.qubits), _strip_addr(repr(list(inst.operation.params))))
+            for inst in qc.data]
+
+
+def _exec_call(spec, cache=None, side=None):
     """-> (canonical JSON-able result, short summary).  Exceptions are part of the result.
     cache: dict or None.  With a dict, the argument OBJECTS (circuit, OptimizationParameters, DeviceConstraints, gate,
-    observables) of equal calls are built once and passed again (instance reuse)."""
+    observables) of equal calls are built once and passed again (instance reuse).
+    side: dict or None; receives arg_unchanged (find_cuts: instruction list of the circuit object passed in, before == after).
+    The canonical result is ALWAYS what the call returned: a call that writes into its argument is not turned into a uniform
+    "crashed" (that would make the first and the repeated call on the same object look alike); the repetition on the reused
+    object then shows the difference in the result itself."""
     from circ import CircCtx
     kind = spec["kind"]
     key = json.dumps(spec, sort_keys=True)
@@ -142,13 +152,18 @@ def _exec_call(spec, cache=None):
         if kind == "fc":
             from qiskit_addon_cutting.automated_cut_finding import find_cuts, OptimizationParameters, DeviceConstraints
             qc = cached("qc", lambda: _build_circuit(spec["nq"], spec["ops"]))
-            n_before = len(qc.data)
+            arg_before = _arg_snapshot(qc)
             opt = cached("opt", lambda: OptimizationParameters(seed=spec["seed"], max_gamma=spec["max_gamma"],
                                                                max_backjumps=spec["max_backjumps"],
                                                                gate_lo=spec["gate_lo"], wire_lo=spec["wire_lo"]))
             cons = cached("cons", lambda: DeviceConstraints(spec["width"]))
-            out, md = find_cuts(qc, opt, cons)
-            assert len(qc.data) == n_before, "find_cuts changed its input circuit"
+            try:
+                out, md = find_cuts(qc, opt, cons)
+                if side is not None:
+                    side["wire_only"] = bool(md["cuts"]) and all(str(t) == "Wire Cut" for t, _ in md["cuts"])
+            finally:
+                if side is not None:
+                    side["arg_unchanged"] = (_arg_snapshot(qc) == arg_before)
             ctx = CircCtx()
             c = _canon_circ(ctx, out)
             benv = [[[str(x) for x in side] for side in m] for b in ctx.canon_benv() for m in b]
@@ -279,8 +294,12 @@ def worker(inp, outp):
             P.perturb(ev["perturb"])
         rec["before"] = P.fingerprint()
         spec = ev["call"]
-        res, summary = _exec_call(spec, cache)
+        side = {}
+        res, summary = _exec_call(spec, cache, side)
         rec["after"] = P.fingerprint()
+        if "arg_unchanged" in side:
+            rec["arg_unchanged"] = side["arg_unchanged"]
+            rec["wire_only"] = bool(side.get("wire_only"))
         txt = json.dumps(res, sort_keys=True)
         rec["digest"] = hashlib.sha256(txt.encode()).hexdigest()[:24]
         rec["status"] = res[0]
@@ -460,8 +479,19 @@ def gen_fc_filler(rng):
 
 
 def gen_fc_star(rng):
-    """a hub qubit that collects several cx and then feeds one more: the optimum is ONE WIRE CUT at the hub
-    (overhead 16) as long as the search may place wire cuts; otherwise two gate cuts (81)"""
+    """searches whose optimum consists of WIRE CUTS ONLY (find_cuts then replaces no gate before it inserts the cut_wire
+    instructions).  2/3: a hub qubit that collects several cx and then feeds one more: the optimum is ONE WIRE CUT at the hub
+    (overhead 16) as long as the search may place wire cuts; otherwise two gate cuts (81).  1/3: two blocks of repeated gates
+    sharing one qubit."""
+    if rng.integers(0, 3) == 0:
+        # two blocks of 2-3 repeated swap (or cx) gates that share ONE qubit, width 2: cutting a block costs gamma >= 3**2 with
+        # gate cuts, one wire cut on the shared qubit between the blocks costs 4 -> the optimum replaces NO gate
+        perm = [int(x) for x in rng.permutation(3)]
+        g = ["swap", "swap", "cx"][int(rng.integers(0, 3))]
+        k1, k2 = int(rng.integers(2, 4)), int(rng.integers(2, 4))
+        ops = [[g, [perm[0], perm[1]], []] for _ in range(k1)] + [[g, [perm[1], perm[2]], []] for _ in range(k2)]
+        return dict(kind="fc", nq=3, ops=ops, width=2, gate_lo=True, wire_lo=True, max_gamma=1024, max_backjumps=10000,
+                    seed=gen_seed(rng, 0.3))
     n = int(rng.integers(4, 7))
     perm = [int(x) for x in rng.permutation(n)]
     hub, last = perm[n - 2], perm[n - 1]
@@ -916,6 +946,11 @@ def generate(rng, tier, outdir):
                         and r["after_probe"] == r["after"]["np"]
                     w.contract("O-rng: default_rng(int seed) is a function of the seed (same stream twice, and in every interpreter) "
                                "and does not touch the global state", ok)
+                if "arg_unchanged" in r:
+                    w.contract("find_cuts leaves the circuit object it was given as it was (instruction list before == after the call)",
+                               r["arg_unchanged"])
+                    w.count("fc.object_use", ("objects reused: " if h["reuse"] else "fresh objects: ") +
+                            ("optimum has wire cuts only (no gate replaced)" if r.get("wire_only") else "other"))
                 if "probs_model" in r:
                     w.contract("QPDBasis.probabilities == |coeffs| / sum|coeffs|, kappa == sum|coeffs| (Process.probabilities)", r["probs_model"])
                 if c["kind"] == "ge" and c["num_samples"] is not None:
@@ -1013,7 +1048,8 @@ def generate(rng, tier, outdir):
              "rarely a 3-qubit gate) of 2-6 qubits with random width, cut kinds, max_gamma, max_backjumps; 2/5 tie-heavy rings of identical "
              "cx/cz gates on 4-6 qubits at the widths where the random tie-break decides which cut set is returned; every family holds such a "
              "ring with seed 0 AND the same circuit and seed under the other cut-kind options (option flipping, restricted set first); full "
-             "families also hold a search on a circuit without two-qubit gates followed by a star circuit whose optimum is one wire cut, and "
+             "families also hold a search on a circuit without two-qubit gates followed by a circuit whose optimum is WIRE CUTS ONLY (no gate replaced: a star "
+             "with one wire cut at the hub, or two blocks of repeated swap/cx gates sharing one qubit at width 2; the gate_lo=False flips are wire-only too), and "
              "two from_instruction calls on the same parametrised gate name with different angles. Integer seeds with 0 (falsy), 1, 2**32-1 "
              "over-represented, also 2**32, 2**63-1, 2**64, -1 (refused), the same seed shared by several calls (1/16 seed=None, 1/40 width 0). "
              "generate_cutting_experiments on 2-4 qubit problems with 1-2 cut gates, partitioned and single-circuit forms, num_samples = inf, or "
@@ -1021,7 +1057,8 @@ def generate(rng, tier, outdir):
              "QPDBasis.from_instruction on the 20 registered gates, 5 KAK-path gates and three refused inputs (1-qubit, 3-qubit, unbound parameter). "
              "Each family runs as three histories, every history in its own interpreter: base order (PYTHONHASHSEED 0), permuted (PYTHONHASHSEED "
              "drawn per history), every call at least twice with the ARGUMENT OBJECTS REUSED plus random repeats up to the length bound and an "
-             "optional sampled generation as interference; random reseeding/advancing of numpy's and Python's global generators before each call; "
+             "optional sampled generation as interference (the result recorded for a find_cuts call is always what it RETURNED; whether it left the circuit object "
+             "it was given unchanged is monitored separately, so a repeated call on a reused object that the first call wrote into shows up as a different result); random reseeding/advancing of numpy's and Python's global generators before each call; "
              "every distinct call alone in a fresh interpreter (half of them with a drawn PYTHONHASHSEED). "
              "distinct = distinct call sequence; non-trivial = at least two calls the property speaks about. "
              "weights: generate_qpd_weights on 1-5 six-term bases with num_samples at, one ulp around, 1e-9 around, far above/below the exact "
